@@ -210,14 +210,6 @@ def classify_cause(key, raw, tc, info):
             return "end-of-range slope dropped under smoothing"
         if smoothing and ((hbeta == 0 and ph != 0) or (cbeta == 0 and pc != 0)):
             return "zero slope with non-zero smoothing fraction"
-        if smoothing and ph + pc >= 1 - 1e-9:
-            # the arithmetic of get_smooth_coeffs in binary64 (finding C11-F2): the shifted balance points meet over the
-            # reals and may cross by one ulp, then full_model swaps the two sides while scoring
-            a, b = ph, pc
-            if a + b > 1:
-                a, b = a / (a + b), b / (a + b)
-            if hb + a * (cb - hb) > cb - b * (cb - hb):
-                return "shifted balance points cross by rounding (sum of fractions >= 1)"
         return "none"
     if key in ("c_hdd_tidd_smooth", "c_hdd_tidd"):
         bp, beta = raw[0], raw[1]
@@ -389,6 +381,9 @@ WITNESSES = [   # the refuted witnesses of Properties/C12.v, replayed on the rea
     ("c_hdd_tidd", [10.0, 1.0, 20.0], [10.0, 90.0, 14.0, 85.0], "T_min"),
     ("hdd_tidd_cdd_smooth", [10.0, 2.0, 0.5, 60.0, 0.0, 0.0, 20.0], [10.0, 90.0, 10.0, 90.0], None),
     ("hdd_tidd_cdd_smooth", [50.0, 4.0, 0.5, 70.0, 0.0, 0.875, 20.0], [10.0, 90.0, 14.0, 85.0], None),
+    # old witness of C12-F7 (fixed by /repo 742a3de4: the shifted balance points no longer cross): must agree now
+    ("hdd_tidd_cdd_smooth", [24.679393524689136, 0.0, 0.0, 59.75, 4.875, 1.0, 23.25],
+     [7.665897511127071, 69.75, 10.91589751112707, 68.288722649513], None),
 ]
 
 
